@@ -49,4 +49,144 @@ def inConflict (cols : List TagCol) (c : TagCol) : Bool :=
 def renamed (cols : List TagCol) (c : TagCol) : Name :=
   if inConflict cols c then encodeTypedColumn c.name c.ty else c.name
 
+/-! ### ordered secondary index (`banyand/internal/sidx`): a thin multiset model
+
+A part is a bag of elements (series, key, opaque data) plus the optional timestamp range the writer
+supplied (`ConvertToMemPart(reqs, segmentID, minTimestamp, maxTimestamp)`); each element has a
+timestamp of its own that only the caller knows. A query selects parts whose range overlaps the
+requested timestamp range (`partWrapper.overlapsTimestampRange`; a part without a range always
+qualifies) and from them the elements of the requested series whose key lies in the key range.
+Block layout, tags and ordering inside equal keys are not modelled (tied by correspondence only). -/
+
+structure SElem where
+  sid : Nat
+  key : Int
+  data : String
+  ts : Int          -- the element's own timestamp (oracle side; sidx never sees it)
+deriving DecidableEq, Repr
+
+structure SPart where
+  id : Nat
+  elems : List SElem
+  range : Option (Int × Int)
+deriving Repr
+
+structure SQuery where
+  sids : List Nat
+  minKey : Option Int
+  maxKey : Option Int
+  minTs : Option Int
+  maxTs : Option Int
+  desc : Bool
+deriving Repr
+
+def SQuery.keyIn (q : SQuery) (e : SElem) : Bool :=
+  q.sids.contains e.sid && (match q.minKey with | some m => decide (m ≤ e.key) | none => true) &&
+    (match q.maxKey with | some m => decide (e.key ≤ m) | none => true)
+
+/-- the element's own timestamp lies in the requested range -/
+def SQuery.tsIn (q : SQuery) (t : Int) : Bool :=
+  (match q.minTs with | some m => decide (m ≤ t) | none => true) &&
+    (match q.maxTs with | some m => decide (t ≤ m) | none => true)
+
+/-- `overlapsTimestampRange` as called by the query (missing query bounds = open) -/
+def SQuery.overlaps (q : SQuery) (r : Option (Int × Int)) : Bool :=
+  match r with
+  | none => true
+  | some (lo, hi) =>
+    !((match q.minTs with | some m => decide (hi < m) | none => false) ||
+      (match q.maxTs with | some m => decide (lo > m) | none => false))
+
+/-- the elements a query returns (as a bag, in part order) -/
+def sQuery (parts : List SPart) (q : SQuery) : List SElem :=
+  (parts.filter fun p => q.overlaps p.range).flatMap fun p => p.elems.filter q.keyIn
+
+/-- what the caller is entitled to: every element of the series/key range whose own timestamp is in range -/
+def sExact (parts : List SPart) (q : SQuery) : List SElem :=
+  parts.flatMap fun p => p.elems.filter fun e => q.keyIn e && q.tsIn e.ts
+
+/-- range of a merged part (repaired, fixes/F56.diff): the hull, and no range at all as soon as one
+    input has none (its elements may lie anywhere) -/
+def hull : List (Option (Int × Int)) → Option (Int × Int)
+  | [] => none
+  | [r] => r
+  | r :: rest =>
+    match r, hull rest with
+    | some (a, b), some (c, d) => some (min a c, max b d)
+    | _, _ => none
+
+/-- the pinned aggregation: minimum / maximum over the inputs that HAVE a bound (finding F56) -/
+def hullLegacy (rs : List (Option (Int × Int))) : Option (Int × Int) :=
+  match rs.filterMap id with
+  | [] => none
+  | (a, b) :: rest => some (rest.foldl (fun m x => min m x.1) a, rest.foldl (fun m x => max m x.2) b)
+
+/-- `Merge` + `IntroduceMerged`: the chosen parts are replaced by one part holding all their elements -/
+def sMerge (legacy : Bool) (parts : List SPart) (ids : List Nat) (newId : Nat) : List SPart :=
+  let chosen := parts.filter fun p => ids.contains p.id
+  if chosen = [] then parts
+  else
+    parts.filter (fun p => !ids.contains p.id) ++
+      [{ id := newId, elems := chosen.flatMap (·.elems),
+         range := (if legacy then hullLegacy else hull) (chosen.map (·.range)) }]
+
+/-- a part's range, when present, covers the timestamps of its elements (what an honest writer supplies) -/
+def SPart.wf (p : SPart) : Prop :=
+  ∀ lo hi, p.range = some (lo, hi) → ∀ e ∈ p.elems, lo ≤ e.ts ∧ e.ts ≤ hi
+
+/-! line protocol of the sidx stream (hooks/banyand/internal/verifdrv/mrw/sidx.go) -/
+
+def optI (s : String) : Option (Option Int) := if s = "*" then some none else s.toInt?.map some
+
+def parseSElem (s : String) : Option SElem :=
+  match s.splitOn ":" with
+  | [sid, key, data] => do pure ⟨← sid.toNat?, ← key.toInt?, data, 0⟩
+  | [sid, key, data, ts] => do pure ⟨← sid.toNat?, ← key.toInt?, data, ← ts.toInt?⟩
+  | _ => none
+
+def insertByKey (desc : Bool) (e : SElem) : List SElem → List SElem
+  | [] => [e]
+  | x :: xs => if (if desc then decide (x.key < e.key) else decide (e.key < x.key)) then e :: x :: xs else x :: insertByKey desc e xs
+
+def sortByKey (desc : Bool) (l : List SElem) : List SElem := l.foldl (fun acc e => insertByKey desc e acc) []
+
+def sidxOp (legacy : Bool) (parts : List SPart) (op : List String) : List SPart × String :=
+  match op with
+  | ["F", _] => (parts, "ok")
+  | ["Q", ord, k1, k2, t1, t2, sids] =>
+    match optI k1, optI k2, optI t1, optI t2, (sids.splitOn ",").mapM String.toNat? with
+    | some k1, some k2, some t1, some t2, some sids =>
+      let q : SQuery := { sids := sids, minKey := k1, maxKey := k2, minTs := t1, maxTs := t2, desc := ord = "desc" }
+      (parts, " ".intercalate ("R" :: (sortByKey q.desc (sQuery parts q)).map fun e => s!"{e.key}:{e.data}:{e.sid}"))
+    | _, _, _, _, _ => (parts, "bad-op")
+  | name :: rest =>
+    match name.toList with
+    | 'W' :: pid =>
+      match (String.ofList pid).toNat?, rest with
+      | some pid, t1 :: t2 :: elems =>
+        match optI t1, optI t2, elems.mapM parseSElem with
+        | some t1, some t2, some es =>
+          let range := match t1, t2 with | some a, some b => some (a, b) | _, _ => none
+          (parts ++ [{ id := pid, elems := es, range := range }], "ok")
+        | _, _, _ => (parts, "bad-op")
+      | _, _ => (parts, "bad-op")
+    | 'M' :: nid =>
+      match (String.ofList nid).toNat?, rest with
+      | some nid, [ids] =>
+        match (ids.splitOn ",").mapM String.toNat? with
+        | some ids => (sMerge legacy parts ids nid, "ok")
+        | none => (parts, "bad-op")
+      | _, _ => (parts, "bad-op")
+    | _ => (parts, "bad-op")
+  | [] => (parts, "bad-op")
+
+def sidxHandle (legacy : Bool) (line : String) : String :=
+  match Store.Proto.splitSegs ((words line).drop 1) with
+  | _ :: ops =>
+    let (_, outs) := ops.foldl (fun (acc : List SPart × List String) op =>
+      let (p', o) := sidxOp legacy acc.1 op
+      (p', acc.2 ++ [o])) (([] : List SPart), [])
+    " ; ".intercalate outs
+  | [] => "bad-op"
+
 end Banyan.C03
